@@ -70,6 +70,8 @@ def closure_axioms(formulas):
     if need_ground:
         out.extend(ground_type_facts())
     out.extend(global_row_axioms(formulas))
+    from .buffer_spec import buffer_axioms
+    out.extend(buffer_axioms(formulas))
     return out
 
 
